@@ -4,6 +4,7 @@ import (
 	"fmt"
 	"os"
 	"reflect"
+	"strings"
 
 	"pgregory.net/rapid"
 
@@ -57,8 +58,19 @@ func RuleNames(t *rapid.T, n int, prefix string) []string {
 	for len(names) < n {
 		var nm string
 		if len(names) > 0 && rapid.IntRange(0, 3).Draw(t, "rname_derive") == 0 {
-			// a name that has an existing name as prefix (Retract must match whole names)
-			nm = names[rapid.IntRange(0, len(names)-1).Draw(t, "rname_base")] + []string{"0", "x", "_", "1"}[rapid.IntRange(0, 3).Draw(t, "rname_suffix")]
+			// a name that has an existing name as prefix (Retract must match whole names), or that differs
+			// from it in letter case only (rule names are case-sensitive)
+			base := names[rapid.IntRange(0, len(names)-1).Draw(t, "rname_base")]
+			suffixes := []string{"0", "x", "_", "1", "\x00lower", "\x00upper"}
+			sf := suffixes[rapid.IntRange(0, len(suffixes)-1).Draw(t, "rname_suffix")]
+			switch sf {
+			case "\x00lower":
+				nm = strings.ToLower(base)
+			case "\x00upper":
+				nm = strings.ToUpper(base)
+			default:
+				nm = base + sf
+			}
 		} else {
 			a := ruleNameParts[rapid.IntRange(0, len(ruleNameParts)-1).Draw(t, "rname_a")]
 			b := rapid.IntRange(0, 99).Draw(t, "rname_b")
@@ -303,6 +315,21 @@ func genAction(t *rapid.T, c RuleSetCfg, rs *RuleSet, xg *XG, names []string, se
 		switch rapid.IntRange(0, 5).Draw(t, "retract_kind") {
 		case 0:
 			target = "NoSuchRule"
+			if rapid.Bool().Draw(t, "retract_unknown_near") {
+				// an unknown name that is close to a known one: other letter case, a prefix, an extension
+				base := names[rapid.IntRange(0, len(names)-1).Draw(t, "retract_near_base")]
+				cands := []string{strings.ToLower(base), strings.ToUpper(base), base[:len(base)-1], base + "x", " " + base}
+				isName := map[string]bool{}
+				for _, n := range names {
+					isName[n] = true
+				}
+				for _, c := range cands[rapid.IntRange(0, len(cands)-1).Draw(t, "retract_near_kind"):] {
+					if c != "" && !isName[c] {
+						target = c
+						break
+					}
+				}
+			}
 			rs.Feat["retract_unknown"]++
 		case 1, 2:
 			target = self
